@@ -626,7 +626,7 @@ Proof.
     subst s3. destruct (cl || negb _); [|auto].
     rewrite nd_upd. cbn [sr set]. split; [|auto]. split.
     - intros Hwf. destruct (Hsn Hwf) as [Hi Hc]. destruct E2 as [E2 _]. destruct (E2 Hwf) as (H1 & H2 & H3).
-      cbn. repeat split; auto.
+      unfold node_wf. cbn [log others sr set]. split; [cbn; auto|]. split; [exact H2|exact H3].
     - intros _. cbn. discriminate. }
   clearbody s3. destruct E3 as (E3 & Esr3 & Hsn).
   set (s4 := upd (fun n => n <| applied := eidx (s_e1 sn) |>) s3).
@@ -638,4 +638,470 @@ Proof.
     apply (nkeeps_update_cluster _ s4); [|exact E4].
     apply ssorted_filter. apply (Hsn Hwf).
   - intros Hne. destruct E4 as [_ E4]. rewrite (fr_update_cluster log) by frs. auto.
+Qed.
+
+Lemma sr_wf_sub z z' :
+  sr_wf z -> (forall b, stored z' = Some b -> stored z = Some b \/ blob_wf b) ->
+  incoming z' = incoming z -> (forall p, In p (trans z') -> In p (trans z)) -> sr_wf z'.
+Proof.
+  intros (S1 & S2 & S3) Hs Hi Ht. split; [|split].
+  - intros b Hb. destruct (Hs b Hb); auto.
+  - intros x b off Hin. eapply S2. apply Ht. exact Hin.
+  - rewrite Hi. exact S3.
+Qed.
+
+Lemma node_wf_same a b :
+  node_wf a -> consec (log b) -> others b = others a -> sr_wf (sr b) -> node_wf b.
+Proof. intros (H1 & H2 & H3) L O W. split; [exact L|]. split; [now rewrite O|exact W]. Qed.
+
+Lemma try_compact_wf e s : node_wf (nd s) -> node_wf (nd (try_compact e s)).
+Proof.
+  intros Hwf. pose proof Hwf as (H1 & H2 & H3). unfold try_compact.
+  set (s1 := if pid (sr (nd s)) =? 0 then s else _).
+  assert (E1 : log (nd s1) = log (nd s) /\ others (nd s1) = others (nd s) /\ sr_wf (sr (nd s1))).
+  { subst s1. destruct (_ =? 0); [auto|]. split; [reflexivity|]. split; [reflexivity|].
+    apply (sr_wf_sub (sr (nd s))); auto. cbn. intros p []. }
+  clearbody s1. destruct E1 as (L1 & O1 & W1).
+  set (s2 := if pid (sr (nd s)) =? 1 then _ else s1).
+  assert (E2 : consec (log (nd s2)) /\ others (nd s2) = others (nd s) /\ sr_wf (sr (nd s2))).
+  { subst s2. destruct (_ =? 1); [|rewrite L1; auto]. cbn. rewrite L1. split; [|auto].
+    unfold delete_to. destruct (_ <? _); [exact H1|now apply consec_skipn]. }
+  clearbody s2. destruct E2 as (L2 & O2 & W2).
+  assert (Hsame : node_wf (nd s2)) by (apply (node_wf_same (nd s)); auto).
+  destruct (negb _); [exact Hsame|].
+  assert (Hupd : forall (f : node -> node), log (f (nd s2)) = log (nd s2) -> others (f (nd s2)) = others (nd s2) ->
+                   sr (f (nd s2)) = sr (nd s2) -> node_wf (f (nd s2))).
+  { intros f F1 F2 F3. apply (node_wf_same (nd s2)); auto; [now rewrite F1|now rewrite F3]. }
+  destruct (_ && _); [exact Hsame|].
+  destruct (get_entries (log (nd s2)) (Some (applied (nd s2) - 1)) (Some 2) None) as [|e0 [|e1 r]] eqn:Eg;
+    try (rewrite nd_upd; apply Hupd; reflexivity).
+  destruct (opt_eqb _ _); [rewrite !nd_upd; apply (node_wf_same (nd s2)); auto|].
+  rewrite !nd_upd. apply (node_wf_same (nd s2)); auto. cbn [sr set].
+  apply (sr_wf_sub (sr (nd s2))); auto. cbn. intros b Hb. right. inversion Hb; subst b. cbn. split; cbn.
+  - pose proof (get_entries_consec (log (nd s2)) (Some (applied (nd s2) - 1)) (Some 2) None L2) as Hc.
+    rewrite Eg in Hc. destruct Hc as [Hc _]. exact Hc.
+  - rewrite O2. destruct (self (nd s2)); [now apply ssorted_sadd|exact H2].
+Qed.
+
+Lemma try_compact_nonempty e s :
+  consec (log (nd s)) -> log (nd s) <> [] ->
+  (pid (sr (nd s)) = 1 -> cur_id (sr (nd s)) <= last_idx (log (nd s))) ->
+  log (nd (try_compact e s)) <> [].
+Proof.
+  intros Hc Hne Hok. unfold try_compact.
+  set (s1 := if pid (sr (nd s)) =? 0 then s else _).
+  assert (E1 : log (nd s1) = log (nd s)) by (subst s1; destruct (_ =? 0); reflexivity).
+  clearbody s1.
+  set (s2 := if pid (sr (nd s)) =? 1 then _ else s1).
+  assert (E2 : log (nd s2) <> []).
+  { subst s2. destruct (pid (sr (nd s)) =? 1) eqn:Ep; [|now rewrite E1].
+    apply N.eqb_eq in Ep. specialize (Hok Ep). cbn. rewrite E1. unfold delete_to.
+    destruct (cur_id (sr (nd s)) <? first_idx (log (nd s))) eqn:El; [exact Hne|].
+    apply N.ltb_ge in El. rewrite (consec_last_idx _ Hc Hne) in Hok.
+    intros Hnil. apply (f_equal (@length entry)) in Hnil. rewrite skipn_length in Hnil. cbn in Hnil.
+    assert (length (log (nd s)) <> 0)%nat by (destruct (log (nd s)); [contradiction|discriminate]). lia. }
+  clearbody s2.
+  destruct (negb _); [exact E2|]. destruct (_ && _); [exact E2|].
+  destruct (get_entries _ _ _ _) as [|e0 [|e1 r]]; try exact E2.
+  destruct (opt_eqb _ _); exact E2.
+Qed.
+
+(* a received chunk *)
+Lemma pieces_first_good ps s :
+  (forall p, In p ps -> blob_wf (fst (fst p))) -> assemble_snap ps = Good s -> snap_wf s.
+Proof.
+  intros H. unfold assemble_snap. destruct ps as [|[[b o] l] r]; [discriminate|].
+  destruct b as [s0|]; [|discriminate]. destruct (pieces_contig _ _ _); [|discriminate].
+  intros E. inversion E; subst. exact (H _ (or_introl eq_refl)).
+Qed.
+
+Lemma set_transmission_keeps p s :
+  (match p with SData b _ _ _ _ => blob_wf b | SNone => True end) ->
+  nkeeps0 (nd s) (nd (fst (set_transmission p s))).
+Proof.
+  intros Hp. unfold set_transmission. destruct p as [|b off len first last]; [apply nkeeps0_refl|].
+  destruct (if first then Some [] else incoming (sr (nd s))) as [ps|] eqn:Ei; [|apply nkeeps0_refl].
+  assert (Hps : sr_wf (sr (nd s)) -> forall p, In p (ps ++ [(b, off, len)]) -> blob_wf (fst (fst p))).
+  { intros (S1 & S2 & S3) p Hin. apply in_app_or in Hin. destruct Hin as [Hin|[<-|[]]]; [|exact Hp].
+    destruct first; [inversion Ei; subst; contradiction|]. exact (S3 _ Ei _ Hin). }
+  destruct last; cbn [fst]; (split; [|cbn; auto]); intros (H1 & H2 & H3); (split; [exact H1|split; [exact H2|]]);
+    destruct H3 as (S1 & S2 & S3); cbn; repeat split; auto.
+  - intros b0 Hb0. inversion Hb0; subst b0.
+    destruct (assemble_snap _) eqn:Ea; [|exact I]. eapply pieces_first_good; [|exact Ea].
+    apply Hps. repeat split; auto.
+  - intros ? Hq. discriminate.
+  - intros ps0 Hq. inversion Hq; subst ps0. apply Hps. repeat split; auto.
+Qed.
+
+Lemma matched_prefix_le a b : (matched_prefix a b <= length a /\ matched_prefix a b <= length b)%nat.
+Proof.
+  revert b. induction a as [|x a IH]; intros b; cbn; [lia|].
+  destruct b as [|y b]; cbn; [lia|]. destruct (_ =? _); cbn; [|lia]. specialize (IH b). lia.
+Qed.
+
+(* the log after an accepted append_entries (any setting of dynamic membership) *)
+Lemma ae_regular_log e from c pidx pterm new s p0 ptail :
+  get_entries (log (nd s)) (Some pidx) None None = p0 :: ptail -> eterm p0 = pterm ->
+  let n := nd s in
+  let m := matched_prefix ptail new in
+  let rest := skipn m ptail in
+  let add := skipn m new in
+  log (nd (ae_regular e from c (Some (pidx, pterm)) new s)) =
+    (if truncating rest add then delete_from (log n) (pidx + 1 + N.of_nat m) else log n) ++ add.
+Proof.
+  intros Hp Ht. cbv zeta. unfold ae_regular. cbn [option_map fst]. rewrite Hp, Ht, N.eqb_refl. cbn [negb].
+  rewrite (fr_ae_commit log) by frs. rewrite nd_send_next_idx.
+  set (m := matched_prefix ptail new). set (rest := skipn m ptail). set (add := skipn m new).
+  set (s1 := match rest with [] => s | _ :: _ => _ end).
+  assert (E1 : log (nd s1) = (if truncating rest add then delete_from (log (nd s)) (pidx + 1 + N.of_nat m) else log (nd s))).
+  { subst s1. destruct rest as [|r0 rest']; [reflexivity|]. destruct add as [|a0 add']; [reflexivity|].
+    cbn [truncating]. rewrite nd_upd. cbn [log set].
+    destruct (dyn (cf e)); rewrite ?(fr_apply_membership log) by frs; reflexivity. }
+  clearbody s1.
+  destruct (dyn (cf e)); rewrite ?(fr_apply_membership log) by frs; rewrite nd_upd; cbn [log set]; now rewrite E1.
+Qed.
+
+Lemma first_idx_firstn k (l : list entry) : first_idx (firstn (Datatypes.S k) l) = first_idx l.
+Proof. destruct l; reflexivity. Qed.
+
+Lemma ssorted_apply_membership r es s :
+  ssorted (others (nd s)) -> ssorted (others (nd (apply_membership r es s))).
+Proof. intros H. destruct (apply_membership_others r es s) as [-> _]. now apply ssorted_fold. Qed.
+
+Lemma ae_regular_cases e from c prev new s :
+  nd (ae_regular e from c prev new s) = nd s \/
+  exists pidx pterm p0 ptail,
+    prev = Some (pidx, pterm) /\ get_entries (log (nd s)) (Some pidx) None None = p0 :: ptail /\
+    eterm p0 = pterm.
+Proof.
+  unfold ae_regular.
+  destruct (get_entries (log (nd s)) (option_map fst prev) None None) as [|p0 ptail] eqn:Ep;
+    [left; now rewrite nd_send_next_idx|].
+  destruct prev as [[pidx pterm]|]; [|left; now rewrite nd_send_next_idx].
+  destruct (negb (eterm p0 =? pterm)) eqn:Et; [left; now rewrite nd_send_next_idx|].
+  apply negb_false_iff, N.eqb_eq in Et. right. exists pidx, pterm, p0, ptail. auto.
+Qed.
+
+Lemma ae_regular_others_sorted e from c prev new s :
+  ssorted (others (nd s)) -> ssorted (others (nd (ae_regular e from c prev new s))).
+Proof.
+  intros Hs. unfold ae_regular.
+  destruct (get_entries _ _ _ _) as [|p0 ptail]; [now rewrite nd_send_next_idx|].
+  destruct prev as [[pidx pterm]|]; [|now rewrite nd_send_next_idx].
+  destruct (negb _); [now rewrite nd_send_next_idx|].
+  rewrite (fr_ae_commit others), nd_send_next_idx by frs.
+  match goal with |- context [upd (fun n => n <| log := log n ++ _ |>) ?s1] => set (s2 := s1) end.
+  assert (E : ssorted (others (nd s2))).
+  { subst s2. destruct (skipn _ ptail); [exact Hs|]. destruct (skipn _ new); [exact Hs|].
+    rewrite nd_upd. cbn [others set].
+    destruct (dyn (cf e)); [|exact Hs]. now apply ssorted_apply_membership. }
+  clearbody s2.
+  destruct (dyn (cf e)); [apply ssorted_apply_membership|]; rewrite nd_upd; exact E.
+Qed.
+
+Lemma ae_regular_keeps e from c prev new s :
+  (match prev with Some (pidx, _) => consec new /\ (new <> [] -> first_idx new = pidx + 1) | None => True end) ->
+  nkeeps0 (nd s) (nd (ae_regular e from c prev new s)).
+Proof.
+  intros Hm.
+  destruct (ae_regular_cases e from c prev new s) as [->|(pidx & pterm & p0 & ptail & -> & Hp & Ht)];
+    [apply nkeeps0_refl|].
+  destruct Hm as [Hcn Hfn].
+  pose proof (ae_regular_log e from c pidx pterm new s p0 ptail Hp Ht) as Hlog. cbv zeta in Hlog.
+  pose proof (ae_split (log (nd s)) pidx p0 ptail (matched_prefix ptail new) Hp) as Hsplit.
+  set (m := matched_prefix ptail new) in *.
+  set (rest := skipn m ptail) in *. set (add := skipn m new) in *.
+  set (kept := delete_from (log (nd s)) (pidx + 1 + N.of_nat m)) in *.
+  split.
+  - intros (H1 & H2 & H3). split; [|split; [now apply ae_regular_others_sorted|]].
+    2:{ rewrite (fr_ae_regular sr) by frs. exact H3. }
+    rewrite Hlog.
+    (* positions *)
+    assert (Hfi : first_idx (log (nd s)) <= pidx).
+    { unfold get_entries in Hp. destruct (pidx <? first_idx (log (nd s))) eqn:E; [discriminate|].
+      now apply N.ltb_ge in E. }
+    pose proof (matched_prefix_le ptail new) as [Hm1 Hm2]. fold m in Hm1, Hm2.
+    assert (Hkept : kept = firstn (N.to_nat (pidx - first_idx (log (nd s))) + 1 + m) (log (nd s))).
+    { subst kept. unfold delete_from.
+      destruct (pidx + 1 + N.of_nat m <? first_idx (log (nd s))) eqn:E; [apply N.ltb_lt in E; lia|].
+      f_equal. lia. }
+    assert (Hlen : length (log (nd s)) = (N.to_nat (pidx - first_idx (log (nd s))) + 1 + length ptail)%nat).
+    { unfold get_entries in Hp. destruct (pidx <? first_idx (log (nd s))); [discriminate|].
+      apply (f_equal (@length entry)) in Hp. rewrite skipn_length in Hp. cbn in Hp. lia. }
+    set (base := if truncating rest add then kept else log (nd s)).
+    destruct add as [|a0 add'] eqn:Eadd.
+    { subst base. destruct rest; cbn [truncating]; rewrite app_nil_r; exact H1. }
+    rewrite <- Eadd.
+    assert (Hbase : consec base /\ base <> [] /\ last_idx base = pidx + N.of_nat m).
+    { assert (Hkk : consec kept /\ kept <> [] /\
+                    ((N.to_nat (pidx - first_idx (log (nd s))) + 1 + m <= length (log (nd s)))%nat ->
+                     last_idx kept = pidx + N.of_nat m)).
+      { rewrite Hkept. split; [now apply consec_firstn|]. split.
+        - replace (N.to_nat (pidx - first_idx (log (nd s))) + 1 + m)%nat
+            with (Datatypes.S (N.to_nat (pidx - first_idx (log (nd s))) + m)) by lia.
+          destruct (log (nd s)); [cbn in Hlen; lia|discriminate].
+        - intros Hle.
+          rewrite consec_last_idx; [|now apply consec_firstn|].
+          + rewrite firstn_length_le by exact Hle.
+            replace (N.to_nat (pidx - first_idx (log (nd s))) + 1 + m)%nat
+              with (Datatypes.S (N.to_nat (pidx - first_idx (log (nd s))) + m)) by lia.
+            rewrite first_idx_firstn. lia.
+          + replace (N.to_nat (pidx - first_idx (log (nd s))) + 1 + m)%nat
+              with (Datatypes.S (N.to_nat (pidx - first_idx (log (nd s))) + m)) by lia.
+            destruct (log (nd s)); [cbn in Hlen; lia|discriminate]. }
+      destruct Hkk as (K1 & K2 & K3).
+      subst base. destruct (truncating rest (a0 :: add')) eqn:Etr.
+      - split; [exact K1|]. split; [exact K2|]. apply K3. lia.
+      - (* nothing is cut: the matched entries reach the end of the log *)
+        assert (Hrest : rest = []) by (destruct rest; [reflexivity|discriminate]).
+        assert (Hmm : m = length ptail).
+        { subst rest. apply (f_equal (@length entry)) in Hrest. rewrite skipn_length in Hrest. cbn in Hrest. lia. }
+        split; [exact H1|]. split; [destruct (log (nd s)); [cbn in Hlen; lia|discriminate]|].
+        rewrite consec_last_idx; [|exact H1|destruct (log (nd s)); [cbn in Hlen; lia|discriminate]].
+        rewrite Hlen, Hmm. lia. }
+    destruct Hbase as (B1 & B2 & B3).
+    apply consec_app; [exact B1|subst add; now apply consec_skipn|].
+    intros _ _. rewrite B3.
+    assert (Hmlt : (m < length new)%nat).
+    { destruct (Nat.lt_ge_cases m (length new)) as [Hl|Hl]; [exact Hl|].
+      subst add. rewrite (skipn_all2 new Hl) in Eadd. discriminate. }
+    subst add. rewrite (first_idx_skipn m new Hcn Hmlt).
+    rewrite Hfn by (destruct new; [cbn in Hmlt; lia|discriminate]). lia.
+  - intros Hne. rewrite Hlog. destruct (truncating rest add) eqn:Etr.
+    + intros Hnil. apply app_eq_nil in Hnil. destruct Hnil as [_ Hnil].
+      destruct rest; [discriminate|]. destruct add; [discriminate|discriminate].
+    + intros Hnil. apply app_eq_nil in Hnil. destruct Hnil as [Hnil _]. contradiction.
+Qed.
+
+(* the entry reassembled from pieces carries the index of every piece *)
+Lemma pieces_ok_idx en off ps p : pieces_ok en off ps = true -> In p ps -> eidx (fst (fst p)) = eidx en.
+Proof.
+  revert off. induction ps as [|[[e' o] l] r IH]; intros off H Hin; [contradiction|].
+  cbn in H. apply andb_prop in H. destruct H as [H Hr]. apply andb_prop in H. destruct H as [He _].
+  destruct Hin as [<-|Hin]; [|eauto].
+  cbn. unfold entry_eqb in He. apply andb_prop in He. destruct He as [He _].
+  apply andb_prop in He. destruct He as [_ He]. apply N.eqb_eq in He. now symmetry.
+Qed.
+
+Lemma assemble_entry_idx ps en off len en' :
+  assemble_entry (ps ++ [(en, off, len)]) = Some en' -> eidx en' = eidx en.
+Proof.
+  unfold assemble_entry. destruct (ps ++ [(en, off, len)]) as [|[[e0 o0] l0] r] eqn:E; [discriminate|].
+  destruct (pieces_ok e0 0 _) eqn:Eo; [|discriminate]. intros H. inversion H; subst en'.
+  symmetry. apply (pieces_ok_idx e0 0 _ (en, off, len) Eo). rewrite <- E. apply in_or_app. right. now left.
+Qed.
+
+Lemma ae_body_of_keeps e from m c s : msg_wf m -> nkeeps0 (nd s) (nd (ae_body_of e from m c s)).
+Proof.
+  intros Hm. unfold ae_body_of. destruct m as [| |t c0 prev es|t c0 prev lab off len en|t c0 p| | |]; try apply nkeeps0_refl.
+  - apply ae_regular_keeps. destruct prev as [[pidx pterm]|]; [exact Hm|exact I].
+  - destruct (lab =? 1); [rewrite nd_send_next_idx; apply nkeeps_0, nkeeps_los; reflexivity|].
+    destruct (recv_t (nd s)) eqn:Er; [apply nkeeps0_refl|].
+    destruct (lab =? 2); [rewrite nd_send_next_idx; apply nkeeps_0, nkeeps_los; reflexivity|].
+    cbn [nd upd].
+    destruct (assemble_entry _) as [en'|] eqn:Ea; [|apply nkeeps_0, nkeeps_los; reflexivity].
+    eapply nkeeps0_trans; [|apply ae_regular_keeps].
+    + apply nkeeps_0, nkeeps_los; reflexivity.
+    + destruct prev as [[pidx pterm]|]; [|exact I]. cbn in Hm.
+      cbn [recv_t set] in Ea. apply assemble_entry_idx in Ea.
+      split; [cbn; auto|]. intros _. cbn. lia.
+  - pose proof (set_transmission_keeps p s) as G.
+    assert (Hp : match p with SData b _ _ _ _ => blob_wf b | SNone => True end) by (destruct p; exact Hm).
+    specialize (G Hp). destruct (set_transmission p s) as [s2 dn]. cbn [fst] in G.
+    destruct (dn && _).
+    + eapply nkeeps0_trans; [exact G|].
+      match goal with |- nkeeps0 _ (nd ?X) =>
+        assert (EE : los (nd X) = los (nd (load_dump e true s2)))
+          by (rewrite (fr_ae_commit los) by reflexivity; now rewrite nd_send_next_idx) end.
+      eapply nkeeps0_trans; [apply (load_dump_keeps e true s2)|apply nkeeps_0, nkeeps_los; exact EE].
+    + eapply nkeeps0_trans; [exact G|]. apply nkeeps_0, nkeeps_los. apply (fr_ae_commit los); reflexivity.
+Qed.
+
+(* C04_log_wf: every message handler *)
+Theorem on_message_keeps e from m n : msg_wf m -> nkeeps0 n (nd (on_message e from m n)).
+Proof.
+  intros Hm. destruct m as [t lli llt|t|t c prev es|t c prev lab off len en|t c p|cm req|req okr a b|t nx r su].
+  - apply nkeeps_0, nkeeps_los. apply (fr_msg_request_vote los); reflexivity.
+  - unfold on_message. destruct (_ && _); [|apply nkeeps0_refl].
+    destruct (majority _ _); [|apply nkeeps_0, nkeeps_los; reflexivity].
+    eapply nkeeps0_trans; [|apply nkeeps_0, nkeeps_become_leader]. apply nkeeps_0, nkeeps_los. reflexivity.
+  - unfold on_message. rewrite on_append_entries_eq. destruct (_ <? _); [apply nkeeps0_refl|].
+    eapply nkeeps0_trans; [|apply ae_body_of_keeps; exact Hm].
+    apply nkeeps_0, nkeeps_los. apply (fr_ae_pre los); reflexivity.
+  - unfold on_message. rewrite on_append_entries_eq. destruct (_ <? _); [apply nkeeps0_refl|].
+    eapply nkeeps0_trans; [|apply ae_body_of_keeps; exact Hm].
+    apply nkeeps_0, nkeeps_los. apply (fr_ae_pre los); reflexivity.
+  - unfold on_message. rewrite on_append_entries_eq. destruct (_ <? _); [apply nkeeps0_refl|].
+    eapply nkeeps0_trans; [|apply ae_body_of_keeps; exact Hm].
+    apply nkeeps_0, nkeeps_los. apply (fr_ae_pre los); reflexivity.
+  - apply nkeeps_0, nkeeps_los. apply (fr_msg_apply_cmd los); reflexivity.
+  - apply nkeeps_0, nkeeps_los. apply (fr_msg_apply_resp los); reflexivity.
+  - apply nkeeps_0, nkeeps_los. apply (fr_msg_next_idx los); reflexivity.
+Qed.
+
+(* ------------------------------------------------------------------------------------------ *)
+(* ticks                                                                                      *)
+
+(* the phases between the dump load and the compaction step *)
+Lemma tick_middle_keeps e s :
+  nkeeps (nd s)
+    (nd ((tick_timer e ;; tick_election e ;; tick_leader e ;;
+          (fun s => let (s, need) := apply_entries e s in
+                    if ok s then (tick_send e need ;; tick_ready ;; check_commands e) s else s)) s)).
+Proof.
+  apply andthen_rel; [apply nkeeps_trans|by_frame @fr_tick_timer|intros].
+  apply andthen_rel; [apply nkeeps_trans|apply nkeeps_tick_election|intros].
+  apply andthen_rel; [apply nkeeps_trans|by_frame @fr_tick_leader|intros].
+  pose proof (nkeeps_apply_entries e s'1) as G. destruct (apply_entries e s'1) as [s1 need]. cbn [fst] in G.
+  destruct (ok s1); [|exact G]. eapply nkeeps_trans; [exact G|].
+  apply andthen_rel; [apply nkeeps_trans|apply nkeeps_tick_send|intros].
+  apply andthen_rel; [apply nkeeps_trans|by_frame @fr_tick_ready|intros].
+  apply nkeeps_check_commands.
+Qed.
+
+Lemma tick_load_keeps e s : nkeeps0 (nd s) (nd (tick_load e s)).
+Proof.
+  unfold tick_load.
+  set (s1 := if need_load (nd s) && file_dump (cf e) then load_dump e false s else s).
+  assert (E : nkeeps0 (nd s) (nd s1)).
+  { subst s1. destruct (_ && _); [apply load_dump_keeps|apply nkeeps0_refl]. }
+  eapply nkeeps0_trans; [exact E|apply nkeeps_0, nkeeps_los; reflexivity].
+Qed.
+
+Theorem on_tick_wf e n : node_wf n -> node_wf (nd (on_tick e n)).
+Proof.
+  apply (on_tick_rel (fun a b => node_wf a -> node_wf b)); auto.
+  - intros s. apply tick_load_keeps.
+  - intros s. apply nkeeps_los. apply (fr_tick_timer los); reflexivity.
+  - intros s. apply nkeeps_tick_election.
+  - intros s. apply nkeeps_los. apply (fr_tick_leader los); reflexivity.
+  - intros s. apply nkeeps_apply_entries.
+  - intros need s. apply nkeeps_tick_send.
+  - intros s. apply nkeeps_los. apply (fr_tick_ready los); reflexivity.
+  - intros s. apply nkeeps_check_commands.
+  - intros s. apply try_compact_wf.
+Qed.
+
+(* the pending serializer job covers only entries the log still has; a dump file is not loaded
+   in this tick (it is loaded in the first tick of a node, before any job can be pending) *)
+Definition compact_ok (e : env) (n : node) : Prop :=
+  pid (sr n) = 1 -> need_load n && file_dump (cf e) = false /\ cur_id (sr n) <= last_idx (log n).
+
+Lemma andthen_split f g s : (f ;; g) s = f s \/ (ok (f s) = true /\ (f ;; g) s = g (f s)).
+Proof. rewrite andthen_eq. destruct (ok (f s)); auto. Qed.
+
+Theorem on_tick_nonempty e n :
+  node_wf n -> log n <> [] -> compact_ok e n -> log (nd (on_tick e n)) <> [].
+Proof.
+  intros Hwf Hne Hok.
+  (* regroup: load ;; (middle ;; compact) *)
+  assert (Hshape : on_tick e n =
+    (tick_load e ;;
+     ((tick_timer e ;; tick_election e ;; tick_leader e ;;
+       (fun s => let (s, need) := apply_entries e s in
+                 if ok s then (tick_send e need ;; tick_ready ;; check_commands e) s else s)) ;;
+      try_compact e)) (start_S e n)).
+  { unfold on_tick. rewrite !andthen_eq.
+    destruct (ok (tick_load e (start_S e n))) eqn:E1; [|reflexivity].
+    destruct (ok (tick_timer e _)) eqn:E2; [|now rewrite ?E2].
+    destruct (ok (tick_election e _)) eqn:E3; [|now rewrite ?E3].
+    destruct (ok (tick_leader e _)) eqn:E4; [|now rewrite ?E4].
+    destruct (apply_entries e _) as [s1 need]. destruct (ok s1) eqn:E5; [|now rewrite ?E5].
+    rewrite !andthen_eq.
+    destruct (ok (tick_send e need s1)) eqn:E6; [|now rewrite ?E6].
+    destruct (ok (tick_ready _)) eqn:E7; [|now rewrite ?E7].
+    destruct (ok (check_commands e _)) eqn:E8; now rewrite ?E8. }
+  rewrite Hshape. clear Hshape.
+  set (s0 := start_S e n).
+  pose proof (tick_load_keeps e s0) as [L1 L2].
+  rewrite andthen_eq. destruct (ok (tick_load e s0)); [|apply L2; exact Hne].
+  set (s1 := tick_load e s0) in *.
+  pose proof (tick_middle_keeps e s1) as ((M1 & M2) & M3 & M4 & M5).
+  rewrite andthen_eq.
+  match goal with |- log (nd (if ok ?X then _ else _)) <> [] => set (s2 := X) in * end.
+  destruct (ok s2); [|apply M2, L2; exact Hne].
+  apply try_compact_nonempty.
+  - apply M1, L1. exact Hwf.
+  - apply M2, L2. exact Hne.
+  - intros Hp. rewrite M3 in Hp. rewrite M4.
+    (* the job was pending at the start of the tick unless tick_load changed it: it does not *)
+    assert (Hsr : sr (nd s1) = sr n /\ (pid (sr n) = 1 -> log (nd s1) = log n)).
+    { subst s1 s0. unfold tick_load. rewrite nd_upd. cbn [sr log set nd start_S].
+      split.
+      - destruct (_ && _); [apply (fr_load_dump sr); frs|reflexivity].
+      - intros Hp1. destruct (Hok Hp1) as [-> _]. reflexivity. }
+    destruct Hsr as [Hsr Hlg]. rewrite Hsr in Hp |- *. destruct (Hok Hp) as [_ Hc].
+    specialize (M5 (L2 Hne)). rewrite (Hlg Hp) in M5. lia.
+Qed.
+
+(* ------------------------------------------------------------------------------------------ *)
+(* the remaining events, construction                                                         *)
+
+Lemma on_connected_keeps x n : nkeeps n (on_connected x n).
+Proof. apply nkeeps_los. unfold on_connected. destruct (_ <=? _); reflexivity. Qed.
+
+Lemma on_disconnected_keeps x n : nkeeps n (on_disconnected x n).
+Proof.
+  unfold on_disconnected. destruct (_ <=? _).
+  - eapply nkeeps_trans; [eapply (nkeeps_trans_only n _ (adel x (trans (sr n)))); [reflexivity|]|apply nkeeps_los; reflexivity].
+    intros (S1 & S2 & S3) y bl o Hin. apply In_adel in Hin. eapply S2; eauto.
+  - eapply nkeeps_trans; [eapply (nkeeps_trans_only n _ (adel x (trans (sr n)))); [reflexivity|]|apply nkeeps_los; reflexivity].
+    intros (S1 & S2 & S3) y bl o Hin. apply In_adel in Hin. eapply S2; eauto.
+Qed.
+
+(* C04_log_wf: every handler, given well-formed deliveries *)
+Theorem nstep_wf c n n' : nstep c msg_wf n n' -> node_wf n -> node_wf n'.
+Proof.
+  intros H Hwf. destruct H.
+  - now apply on_tick_wf.
+  - now apply on_message_keeps.
+  - now apply on_connected_keeps.
+  - now apply on_disconnected_keeps.
+  - apply (nkeeps_los n); [|exact Hwf]. unfold api_submit. apply (fr_submit los); reflexivity.
+  - apply (nkeeps_los n); [|exact Hwf]. unfold api_admin.
+    destruct (dyn (cf e)); [apply (fr_submit los); reflexivity|reflexivity].
+  - apply (nkeeps_los n); [|exact Hwf]. unfold api_setver.
+    destruct (_ || _); [reflexivity|apply (fr_submit los); reflexivity].
+  - apply (nkeeps_los n); [|exact Hwf]. reflexivity.
+Qed.
+
+Theorem nstep_nonempty c n n' :
+  nstep c msg_wf n n' -> node_wf n -> log n <> [] ->
+  (forall e, cf e = c -> compact_ok e n) -> log n' <> [].
+Proof.
+  intros H Hwf Hne Hok. destruct H.
+  - apply on_tick_nonempty; auto.
+  - now apply on_message_keeps.
+  - now apply on_connected_keeps.
+  - now apply on_disconnected_keeps.
+  - apply (nkeeps_los n); [|exact Hne]. unfold api_submit. apply (fr_submit los); reflexivity.
+  - apply (nkeeps_los n); [|exact Hne]. unfold api_admin.
+    destruct (dyn (cf e)); [apply (fr_submit los); reflexivity|reflexivity].
+  - apply (nkeeps_los n); [|exact Hne]. unfold api_setver.
+    destruct (_ || _); [reflexivity|apply (fr_submit los); reflexivity].
+  - apply (nkeeps_los n); [|exact Hne]. reflexivity.
+Qed.
+
+Lemma init_node_wf e me oth sv : ssorted oth -> node_wf (init_node e me oth sv) /\ log (init_node e me oth sv) <> [].
+Proof.
+  intros H. split; [|discriminate]. split; [cbn; auto|]. split; [exact H|].
+  cbn. repeat split; intros; try discriminate; contradiction.
+Qed.
+
+(* the condition of on_tick_nonempty is needed: a node whose pending job points beyond a log that was
+   replaced meanwhile ends with an empty log (state-level witness, not a reachable-state claim) *)
+Definition empty_log_env : env :=
+  mkEnv (mkConf 10 100 50 300 10 10 true false true 10 10 100 10 false false) 0 30 0 [] 0.
+Definition empty_log_node : node :=
+  (init_node empty_log_env (Some 1) [2; 3] 0)
+    <| need_load := false |>
+    <| sr := mkSer 1 9 None [] None |>.
+
+Example compact_ok_needed :
+  node_wf empty_log_node /\ log empty_log_node <> [] /\
+  log (nd (on_tick empty_log_env empty_log_node)) = [].
+Proof.
+  split; [|split; [discriminate|vm_compute; reflexivity]].
+  split; [cbn; auto|]. split; [cbn; lia|].
+  cbn. repeat split; intros; try discriminate; contradiction.
 Qed.
